@@ -186,10 +186,15 @@ def cli_stage(ctx, fmt, sample_dir, sig_of):
     for name, evs in (("trace-cli.ndjson", events), ("trace-cli-pos.ndjson", events_pos)):
         tp = ctx.path(name)
         vlib.write_ndjson(tp, evs)
-        n += vlib.check_trace(ctx, "Trace_Locate.tla", "Trace.cfg", tp, sig_of,
-                              group_key=lambda e: e.get("e") == "build", timeout=900, selftest=False)
+        before = ctx.cov.get("known_finding_hits", 0)
+        vlib.check_trace(ctx, "Trace_Locate.tla", "Trace.cfg", tp, sig_of,
+                         group_key=lambda e: e.get("e") == "build", timeout=900, selftest=False)
         if ctx.violations:
             break
+        # validated loc events of this trace (events of known-finding classes were dropped)
+        known = {json.dumps(f.get("signature", {}).get("class")) for f in vlib.load_known() if f.get("property") == ctx.prop}
+        n += sum(1 for i, e in enumerate(evs) if e.get("e") == "loc"
+                 and json.dumps(sig_of(e, evs, i).get("class")) not in known)
     return n
 
 
@@ -272,6 +277,7 @@ def trace_stage(ctx, fmt, binname, ndocs, extra=()):
         value_selftest(ctx, evs, fmt)
     doc = None
     classes = {}
+    seen_expr = set()
     for e in evs:
         if e["e"] == "build":
             doc = e["doc"]
@@ -280,17 +286,19 @@ def trace_stage(ctx, fmt, binname, ndocs, extra=()):
             classes[c] = classes.get(c, 0) + 1
             if e["expr"] not in (".", ""):
                 ctx.note_distinct(("expr", e["expr"]))
-            if c == "other" and len(e["expr"]) > 6 and len(doc) < 160:
+            if c == "other" and len(e["expr"]) > 6 and len(doc) < 160 and e["expr"] not in seen_expr:
+                seen_expr.add(e["expr"])
                 ctx.sample({"doc": doc, "offset": e["off"], "expression": e["expr"],
                             "byte_range": [e["rs"], e["re"]], "at_offset": e["ao"]})
     ctx.cov["event_classes"] = classes
-    return n, sample_dir, sig_of
+    # evaluations = validated loc events (build / end events and dropped known-finding events not counted)
+    return (classes.get("other", 0) if not ctx.violations else 0), sample_dir, sig_of
 
 
 def run(ctx):
     q = ctx.quick
     model_stage(ctx, "json")
-    n, sample_dir, sig_of = trace_stage(ctx, "json", "c28", 80 if q else 1200)
+    n, sample_dir, sig_of = trace_stage(ctx, "json", "c28", 80 if q else 400)
     ncli = 0
     if not ctx.violations:
         ncli = cli_stage(ctx, "json", sample_dir, sig_of)
@@ -307,5 +315,24 @@ def run(ctx):
     ]
 
 
-# MUTANTS (scratch worktree /tmp/wt-c28, VERIF_REPO=/tmp/wt-c28 ./check C28):
-#   see the list at the bottom of this file, filled in after the mutation runs.
+# MUTANTS (scratch worktree /tmp/wt-c28, VERIF_REPO=/tmp/wt-c28 VERIF_SKIP_MODEL=1 ./check C28, quick tier, the three
+# known findings listed; every one printed VIOLATION and exited 1, rejected by Trace_Locate.tla at the event shown):
+#  M1 json/locate.rs count_siblings_before `<` -> `<=` (DESIGN Appendix A)        -> caught, event 26: `[1,[2,[],{}],"x"]`
+#     offset 1 (the `1`) printed `.[1]`, evaluates to the inner array.  The same mutant is also rejected at MODEL level:
+#     MC_Locate_implmut.cfg (LocateImpl with ImplMutant = "sib_le") violates InvImpl.
+#  M2 json/locate.rs can_use_dot_notation allows `-` (DESIGN Appendix A)          -> caught, event 442: key "foo-bar" printed
+#     `.foo-bar`, evaluation error `undefined function: bar/0`
+#  M3 json/light.rs text_range: string end `i + 1` -> `i` (range end off by one)  -> caught, event 3: reported range (5,10)
+#     for the key token [5,11)
+#  M4 json/light.rs cursor_at_offset: inside a token `rank - 1` -> `rank`         -> caught, event 4: at_offset / at_position
+#     inside the key "name" return the value "Alice" (locate itself unaffected)
+#  M5 json/locate.rs escape_jq_string: backslash not escaped                       -> caught, event 518: key `back\slash`,
+#     printed expression does not parse (invalid escape)
+#  M6 json/locate.rs find_key_for_value: the key test replaced (key/value confusion: a key token is no longer found,
+#     the value after a pair is attributed to it)                                  -> caught, event 3: key offset not located
+#  M7 json/locate.rs find_node_at_offset: exact-structural-position case uses rank-1 -> caught, event 3: first byte of a
+#     key located as the enclosing object (`.`, range of the object)
+#  model-level negative controls run by every check: MC_Locate_dup.cfg (duplicate keys) must violate InvPath,
+#  MC_Locate_implmut.cfg must violate InvImpl; both do.
+#  binding self-tests run by every check: corrupted `re`, corrupted evaluated value, corrupted at_offset value are each
+#  rejected exactly at the corrupted event.
